@@ -43,6 +43,8 @@ AllNames == Names \cup {Extra}
 IntV(n) == [t |-> "int", v |-> n]
 Cell(k) == [t |-> "cell", id |-> k]
 Unset == [t |-> "unset"]
+IntVals == {IntV(1), IntV(2)}
+BadV == IntV(9)     \* outside the declared bounds of a plain parameter
 
 \* ---- lookup: what attribute access and the .param namespace must both resolve to ----------
 Declared(c, n) == \E i \in 1..Len(Mro(c)) : cdict[Mro(c)[i]][n] # 0
@@ -116,7 +118,11 @@ InstParam(i, n) ==
 ClassSet(c, n, v) ==
   /\ "classset" \in Acts /\ Step /\ Declared(c, n)
   /\ LET src == Lookup(c, n) IN
-     IF P[src].readonly
+     IF v = BadV
+     THEN \* rejected by validation (out of bounds): nothing changes
+          /\ UNCHANGED <<P, cdict, cells, I>>
+          /\ Rec("classset", [c |-> c, n |-> n, v |-> v], "ValueError", P, cdict, cells, I, {})
+     ELSE IF P[src].readonly
      THEN /\ UNCHANGED <<P, cdict, cells, I>>
           \* (the implementation copies the inherited Parameter into c before the assignment is refused)
           /\ Rec("classset", [c |-> c, n |-> n, v |-> v], "TypeError", P, cdict, cells, I,
@@ -177,7 +183,10 @@ InstSet(i, n, v, route) ==
          frozen == p.readonly \/ (p.constant /\ I[i].edit = 0)
      IN \* while an edit_constant block is open on some instance, other instances are left alone
         /\ (EditOpen /\ I[i].edit = 0) => ~P[Lookup(I[i].cls, n)].constant
-        /\ IF frozen /\ (p.readonly \/ val # cur)
+        /\ IF v = BadV /\ ~frozen
+           THEN /\ UNCHANGED <<P, cdict, cells, I>>
+                /\ Rec("instset", [i |-> i, n |-> n, v |-> v, route |-> route], "ValueError", P, cdict, cells, I, {})
+           ELSE IF frozen /\ (p.readonly \/ val # cur)
            THEN /\ UNCHANGED <<P, cdict, cells, I>>
                 /\ Rec("instset", [i |-> i, n |-> n, v |-> v, route |-> route], "TypeError", P, cdict, cells, I, {})
            ELSE \* (an assignment to an initialized instance is delegated to its per-instance Parameter,
@@ -225,10 +234,10 @@ ExitEdit(i, raising) == /\ "edit" \in Acts /\ i \in 1..Len(I) /\ I[i].edit > 0
                         /\ UNCHANGED <<P, cdict, cells, nops>>
                         /\ Rec("exitedit", [i |-> i, raising |-> raising], "ok", P, cdict, cells, I', {})
 
-IntVals == {IntV(1), IntV(2)}
 NewCell == [t |-> "newcell"]
-ValsFor(n) == IF n \in Names /\ Kind[n] \in {"mut_inst", "mut_shared", "const"} THEN {NewCell} ELSE IntVals
-Kws(c) == {<<>>} \cup UNION {{[x \in {n} |-> v] : v \in ValsFor(n)} : n \in {m \in Names : Declared(c, m) /\ Kind[m] # "readonly"}}
+ValsFor(n) == IF n \in Names /\ Kind[n] \in {"mut_inst", "mut_shared", "const"} THEN {NewCell}
+              ELSE IF n \in Names /\ Kind[n] \in {"plain", "noperinst"} THEN IntVals \cup {BadV} ELSE IntVals
+Kws(c) == {<<>>} \cup UNION {{[x \in {n} |-> v] : v \in ValsFor(n) \ {BadV}} : n \in {m \in Names : Declared(c, m) /\ Kind[m] # "readonly"}}
 
 Next ==
   \/ \E c \in CSet : ReadNS(c)
